@@ -10,6 +10,12 @@
    - UNIXSocketStream.send(b"") on a locally closed stream returns normally (the `while view:` loop never touches the socket);
    - UNIXSocketStream.receive(2**40) raises MemoryError (the kernel contract recv(n) allocates n bytes);
    - send_eof() on a locally closed stream raises OSError (UNIX) resp. RuntimeError / nothing (TCP) instead of ClosedResourceError.
+   ENVIRONMENT NOTE (no theorem): SockProto never FORCES the transport to answer an abort - ConnectionLost is an environment
+   op like any other, so "after transport.abort() the transport calls connection_lost()" is a contract, not a consequence:
+   C18_sock_cancelled_close_still_aborts gives `aborted`, C18_sock_connection_lost_wakes_everyone / ..._woken_calls_on_closed_stream
+   say what that callback then does.  The contract itself is checked on the real transports only (end-to-end scenarios
+   close_both_parked, forceful_close, send_lost: the parked calls must end within 5 s on stock asyncio and uvloop); the fake-transport
+   harness delivers ConnectionLost as one of its random env ops and its quiescence step cancels whatever is still parked.
    KNOWN FINDING F48 (no theorem: kernel TCP behaviour is outside the model): closing a TCP stream while inbound data is unread
    makes the kernel reset the connection and destroy data already sent; the directed real-socket scenario reports it as
    KNOWN-FINDING. *)
@@ -293,6 +299,16 @@ Theorem C18_unix_close_ends_parked_calls : forall defer s d a,
      ph (fst (cstep false defer s (CStep d a))) d = CIdle).
 Proof. exact unix_close_ends_parked_calls. Qed.
 Print Assumptions C18_unix_close_ends_parked_calls.
+
+Theorem C18_unix_close_ends_parked_calls_nonvacuous : forall defer,
+  let s := final (cstep false defer) cinit
+             [CBegin DR; CStep DR ABlock; CBegin DS; CStep DS ABlock; CClose; CCallback DR; CCallback DS] in
+  creach defer s /\ c_closing s = true /\
+  ph s DR = CRun false /\ cb s DR = false /\ ph s DS = CRun false /\ cb s DS = false /\
+  snd (cstep false defer s (CStep DR ABlock)) = CEnd UClosed /\
+  snd (cstep false defer s (CStep DS AOk)) = CEnd UClosed.
+Proof. exact unix_close_ends_parked_calls_nonvacuous. Qed.
+Print Assumptions C18_unix_close_ends_parked_calls_nonvacuous.
 
 Theorem C18_unix_close_with_both_parked : forall defer s a b,
   creach defer s -> c_phr s = CParked -> c_phs s = CParked ->
